@@ -87,3 +87,17 @@ Definition hub_run (c : val) : val :=
                         let (s', code) := step s (dec_op ov) in
                         (s', out ++ [VL [vNat code; enc_state s']]))
                      (vL (vnth 2 c)) (init_state p tokens, []))).
+
+(* blocks suite (C05): inside a block nothing reads the stores between two transactions, so the harness observes the
+   state only after Begin/EndBlockers, environment changes and restarts; transactions report their code alone *)
+Definition blocks_run (c : val) : val :=
+  let p := dec_params (vnth 0 c) in
+  let tokens := map dec_token (vL (vnth 1 c)) in
+  VL (snd (fold_left (fun (acc : state * list val) ov =>
+                        let (s, out) := acc in
+                        let k := vI (vnth 0 ov) in
+                        if k =? 11 then (s, out ++ [VL [VI 1; VL []]])
+                        else
+                        let (s', code) := step s (dec_op ov) in
+                        (s', out ++ [VL [vNat code; if (k =? 1) || (k =? 2) || (k =? 3) || (k =? 4) then VL [] else enc_state s']]))
+                     (vL (vnth 2 c)) (init_state p tokens, []))).
